@@ -266,6 +266,120 @@ def run(run_, tier, ops, workers=12):
     run_.count("history_distinct_steps_applicable", len(seen) - na)
 
 
+# --------------------------------------------------------------------------------------
+# derivation histories of the model / estimator equations (spec/DeriveHistory.tla)
+# --------------------------------------------------------------------------------------
+def _derive(module):
+    """{exported function name: ca.Function} of one derivation of `module`"""
+    import casadi as ca
+    out = {}
+    if module == "estimator":
+        from cyecca.estimate.attitude import algorithms
+        for sname, d in algorithms.eqs().items():
+            for k, f in d.items():
+                out[f"estimator:{sname}:{f.name()}"] = f
+        return out
+    if module == "quadrotor":
+        from cyecca.models import quadrotor
+        m = quadrotor.derive_model()
+        return {f"quadrotor:{k}": v for k, v in m.items() if isinstance(v, ca.Function)}
+    import importlib
+    mod = importlib.import_module("cyecca.models." + module)
+    for n in sorted(dir(mod)):
+        if n.startswith("derive_"):
+            try:
+                r = getattr(mod, n)()
+            except Exception:       # noqa
+                continue
+            if isinstance(r, dict):
+                for k, f in r.items():
+                    if isinstance(f, ca.Function):
+                        out[f"{module}:{f.name()}"] = f
+    return out
+
+
+def _eval_fn(f, seed):
+    import casadi as ca
+    rng = np.random.default_rng(seed)
+    res = []
+    for _ in range(2):
+        args = [ca.DM(rng.uniform(0.2, 1.1, f.numel_in(i)).reshape(f.size_in(i), order="F")) for i in range(f.n_in())]
+        try:
+            r = f(*args) if f.n_in() else f()
+        except Exception as ex:     # noqa
+            res.append(f"raises:{type(ex).__name__}"); continue
+        if isinstance(r, dict):
+            r = [r[k] for k in sorted(r)]
+        r = r if isinstance(r, (list, tuple)) else [r]
+        res.append([float(x) for o in r for x in np.array(ca.DM(o)).flatten(order="F")])
+    return res
+
+
+def _models_main():
+    seq = json.load(sys.stdin)          # [{"module":..., "nth":...}, ...]
+    import zlib
+    with contextlib.redirect_stdout(io.StringIO()), contextlib.redirect_stderr(io.StringIO()):
+        import matplotlib
+        matplotlib.use("Agg")
+        derived = []
+        for st in seq:
+            derived.append((st, _derive(st["module"])))
+        out = []
+        for st, fns in derived:
+            out.append({"step": st, "values": {k: _eval_fn(f, zlib.crc32(k.encode())) for k, f in sorted(fns.items())}})
+    print(json.dumps(out))
+
+
+def run_models(run_, tier, prefixes):
+    """prefixes: tuple of 'module:function' prefixes whose disagreements the calling check reports"""
+    from harness.core import run_tlc, parse_dump, MachineryError
+    if "--replay" in sys.argv:
+        return
+    res = run_tlc("DeriveHistory.tla", f"DeriveHistory_{tier}.cfg", workdir=run_.workdir, dump=True, workers=2)
+    run_.add_tlc("DeriveHistory", res)
+    hist = {}
+    for st in parse_dump(res["dump"]):
+        if st["pos"] >= 1:
+            c = st["cfg"]
+            hist.setdefault((c["rot"], bool(c["rev"]), c["again"]), []).append((st["pos"], dict(st["step"])))
+    hs = {k: [s for _, s in sorted(v, key=lambda t: t[0])] for k, v in hist.items()}
+    if len(hs) < 3:
+        raise MachineryError(f"DeriveHistory: only {len(hs)} configurations")
+
+    def one(steps):
+        p = subprocess.run([sys.executable, "-m", "harness.history", "models"], input=json.dumps(steps), capture_output=True, text=True,
+                           env=dict(os.environ, MPLBACKEND="Agg"), cwd="/verif")
+        if p.returncode != 0:
+            raise RuntimeError(p.stderr[-600:])
+        return json.loads(p.stdout.strip().splitlines()[-1])
+    with cf.ThreadPoolExecutor(min(8, len(hs))) as ex:
+        futs = {k: ex.submit(one, v) for k, v in hs.items()}
+        out = {}
+        for k, f in futs.items():
+            try:
+                out[k] = f.result()
+            except Exception as e:      # noqa
+                raise MachineryError(f"derivation history {k} could not be executed: {e}")
+    seen = {}
+    n = 0
+    for k, rs in out.items():
+        for r in rs:
+            for fn, vals in r["values"].items():
+                n += 1
+                if fn in seen:
+                    k0, st0, v0 = seen[fn]
+                    same = all(_same(a, b, tol=1e-12) for a, b in zip(v0, vals)) and len(v0) == len(vals)
+                    if not same and fn.startswith(tuple(prefixes)):
+                        run_.violation(f"derivation_history/{fn}", "the exported function computes different values depending on what was derived before it in the "
+                                       "same interpreter (order of derivations, or a second derivation)",
+                                       {"function": fn, "history_1": list(k0), "derivation_1": st0, "history_2": list(k), "derivation_2": r["step"],
+                                        "values_1": v0, "values_2": vals})
+                else:
+                    seen[fn] = (k, r["step"], vals)
+    run_.count("derivation_histories", len(hs))
+    run_.count("derived_function_evaluations", n)
+
+
 def hook(run_, tier, ops):
     """called by the checks right after their prelude: runs the histories (normal run), or only them when a history
     finding is being replayed (returns True: the caller finishes)"""
@@ -285,3 +399,5 @@ def hook(run_, tier, ops):
 if __name__ == "__main__":
     if len(sys.argv) > 1 and sys.argv[1] == "exec":
         _exec_main()
+    elif len(sys.argv) > 1 and sys.argv[1] == "models":
+        _models_main()
